@@ -1,7 +1,1628 @@
-//! C07 — stub (not built yet).
+//! C07 — RTR PDUs survive the wire; broken streams end in errors, not hangs.
+//!
+//! Sub-checks: `roundtrip` (constructors → write → every reader → accessors),
+//! `payload` (payload item → PDU → wire → PDU → payload item), `truncate`
+//! (every proper prefix of every PDU of a sequence through every reader),
+//! `corrupt` / `header-enum` (type / version / length field of one header
+//! rewritten; random resp. exhaustive over the byte values), `client` (the
+//! real `rtr::Client` fed a server reply stream: intact, every truncation,
+//! one corrupted header).
+
+#[path = "c07_io.rs"]
+mod io_;
 
 use crate::engine::*;
+use crate::gen::{dense_u128, dense_u32, pick_idx, U128};
+use io_::{drive, MemReader, MemSock, EOF_POLL_LIMIT};
+use proptest::prelude::*;
+use rpki::crypto::keys::KeyIdentifier;
+use rpki::resources::addr::{MaxLenPrefix, Prefix};
+use rpki::resources::asn::Asn;
+use rpki::rtr::client::{Client, PayloadError, PayloadTarget};
+use rpki::rtr::payload as pl;
+use rpki::rtr::pdu;
+use rpki::rtr::state::{Serial, State};
+use serde::{Deserialize, Serialize};
+use std::future::Future;
+use std::io;
+use std::net::{Ipv4Addr, Ipv6Addr};
+
+pub const RULE: &str = "roundtrip: random sequences of 1..6 PDUs over all 11 PDU types (versions 0-2 and 3-255, any \
+session/serial/timing/flags, v4/v6 prefixes with any (len,max_len,host bits), key info 0..4 KiB, 0..300 providers, error \
+PDUs with embedded PDU/text 0..2 KiB), each PDU built by the library constructor, accessors compared with the inputs, \
+written, length field (big-endian at octet 4) compared with bytes written, read back through every reader entry point \
+(read, try_read, Header::read + read_payload/skip_payload dispatch, Payload::read, SerialQueryPayload::read) from a \
+never-pending in-memory reader with generated chunk sizes; payload PDUs also through to_payload against a harness \
+computed value. payload: payload items (valid origins, router keys, ASPA) x action x version -> Payload::new -> write -> \
+Payload::read -> to_payload. truncate: for each PDU of a sequence every proper prefix (0..len-1 bytes, exhaustive per \
+case) through every reader: must be Err (try_read on an error PDU: Ok(Err(header)) once the header is complete), one \
+poll, <=2 polls of the exhausted reader, no panic. corrupt: one header field (type / version / length: abs, +k, -k, 0, \
+7, 2^32-1 ...) of one PDU of a sequence rewritten, stream continues with the following PDUs; outcome class from a \
+reference model of the reader's type and length rules; Err => bytes served <= max(8, announced length), Ok => bytes \
+served == announced length. header-enum: the same oracle, complete enumeration of all 256 type bytes, all 256 version \
+bytes and a fixed list of lengths for one canonical PDU of each kind. client: rtr::Client::update() over a reply stream \
+[version-error PDU] [cache reset] cache response, payload PDUs, end of data: intact => exactly the (action, payload) list \
+and state; every proper prefix => Err; one corrupted header => Err where the reference rules say so, otherwise only \
+termination. non-trivial = sequence with a variable-length PDU (roundtrip/payload), a truncation point strictly inside a \
+PDU body (truncate/client), or a header field actually changed (corrupt/header-enum/client).";
+
+//------------ plain-data specs ------------------------------------------------
+
+/// `len` bytes: start, start+step, start+2*step ...
+#[derive(Clone, Debug, PartialEq, Eq, Serialize, Deserialize)]
+pub struct Blob {
+    pub len: u32,
+    pub start: u8,
+    pub step: u8,
+}
+
+impl Blob {
+    fn bytes(&self) -> Vec<u8> {
+        (0..self.len).map(|i| self.start.wrapping_add((i as u8).wrapping_mul(self.step))).collect()
+    }
+}
+
+/// `count` provider ASNs: base, base+step ...
+#[derive(Clone, Debug, PartialEq, Eq, Serialize, Deserialize)]
+pub struct Provs {
+    pub count: u16,
+    pub base: u32,
+    pub step: u32,
+}
+
+impl Provs {
+    fn asns(&self) -> Vec<u32> {
+        (0..self.count as u32).map(|i| self.base.wrapping_add(self.step.wrapping_mul(i))).collect()
+    }
+}
+
+#[derive(Clone, Debug, PartialEq, Eq, Serialize, Deserialize)]
+pub enum PduSpec {
+    SerialNotify { version: u8, session: u16, serial: u32 },
+    SerialQuery { version: u8, session: u16, serial: u32 },
+    ResetQuery { version: u8 },
+    CacheResponse { version: u8, session: u16 },
+    V4 { version: u8, flags: u8, len: u8, max_len: u8, addr: u32, asn: u32 },
+    V6 { version: u8, flags: u8, len: u8, max_len: u8, addr: U128, asn: u32 },
+    /// Built with `EndOfData::new`: version 0 gives the 12-octet form.
+    Eod { version: u8, session: u16, serial: u32, refresh: u32, retry: u32, expire: u32 },
+    CacheReset { version: u8 },
+    RouterKey { version: u8, flags: u8, ski: (u8, u8), asn: u32, info: Blob },
+    Error { version: u8, code: u16, pdu: Blob, text: Blob },
+    Aspa { version: u8, flags: u8, customer: u32, provs: Provs },
+}
+
+fn ski_bytes(s: (u8, u8)) -> [u8; 20] {
+    let mut r = [0u8; 20];
+    for (i, b) in r.iter_mut().enumerate() {
+        *b = s.0.wrapping_add((i as u8).wrapping_mul(s.1));
+    }
+    r
+}
+
+const T_NOTIFY: u8 = 0;
+const T_SQUERY: u8 = 1;
+const T_RQUERY: u8 = 2;
+const T_RESPONSE: u8 = 3;
+const T_V4: u8 = 4;
+const T_V6: u8 = 6;
+const T_EOD: u8 = 7;
+const T_RESET: u8 = 8;
+const T_KEY: u8 = 9;
+const T_ERROR: u8 = 10;
+const T_ASPA: u8 = 11;
+
+/// Announced lengths above this are never given to a reader that allocates
+/// the announced length up front (router key / ASPA bodies): memory is not
+/// part of C07 and the harness must not run out of it.
+const ALLOC_CAP: u32 = 1 << 20;
+
+impl PduSpec {
+    fn kind_label(&self) -> &'static str {
+        match self {
+            PduSpec::SerialNotify { .. } => "k:serial-notify",
+            PduSpec::SerialQuery { .. } => "k:serial-query",
+            PduSpec::ResetQuery { .. } => "k:reset-query",
+            PduSpec::CacheResponse { .. } => "k:cache-response",
+            PduSpec::V4 { .. } => "k:ipv4",
+            PduSpec::V6 { .. } => "k:ipv6",
+            PduSpec::Eod { .. } => "k:end-of-data",
+            PduSpec::CacheReset { .. } => "k:cache-reset",
+            PduSpec::RouterKey { .. } => "k:router-key",
+            PduSpec::Error { .. } => "k:error",
+            PduSpec::Aspa { .. } => "k:aspa",
+        }
+    }
+    fn variable(&self) -> bool {
+        matches!(self, PduSpec::RouterKey { .. } | PduSpec::Error { .. } | PduSpec::Aspa { .. })
+    }
+}
+
+//------------ library values --------------------------------------------------
+
+#[derive(Clone, Debug, PartialEq, Eq)]
+enum Lib {
+    SerialNotify(pdu::SerialNotify),
+    SerialQuery(pdu::SerialQuery),
+    ResetQuery(pdu::ResetQuery),
+    CacheResponse(pdu::CacheResponse),
+    V4(pdu::Ipv4Prefix),
+    V6(pdu::Ipv6Prefix),
+    EodV0(pdu::EndOfDataV0),
+    EodV1(pdu::EndOfDataV1),
+    CacheReset(pdu::CacheReset),
+    RouterKey(pdu::RouterKey),
+    Error(pdu::Error),
+    Aspa(pdu::Aspa),
+}
+
+#[derive(Clone, Copy, Debug, PartialEq, Eq)]
+enum Kind {
+    SerialNotify,
+    SerialQuery,
+    ResetQuery,
+    CacheResponse,
+    V4,
+    V6,
+    EodV0,
+    EodV1,
+    CacheReset,
+    RouterKey,
+    Error,
+    Aspa,
+}
+
+impl Kind {
+    fn type_byte(self) -> u8 {
+        match self {
+            Kind::SerialNotify => T_NOTIFY,
+            Kind::SerialQuery => T_SQUERY,
+            Kind::ResetQuery => T_RQUERY,
+            Kind::CacheResponse => T_RESPONSE,
+            Kind::V4 => T_V4,
+            Kind::V6 => T_V6,
+            Kind::EodV0 | Kind::EodV1 => T_EOD,
+            Kind::CacheReset => T_RESET,
+            Kind::RouterKey => T_KEY,
+            Kind::Error => T_ERROR,
+            Kind::Aspa => T_ASPA,
+        }
+    }
+}
+
+fn eod_to_lib(e: pdu::EndOfData) -> Lib {
+    match e {
+        pdu::EndOfData::V0(v) => Lib::EodV0(v),
+        pdu::EndOfData::V1(v) => Lib::EodV1(v),
+    }
+}
+
+fn provider_asns(v: &[u32]) -> Result<pdu::ProviderAsns, Fail> {
+    pdu::ProviderAsns::try_from_iter(v.iter().map(|&a| Asn::from_u32(a)))
+        .map_err(|e| Fail::new(format!("ProviderAsns::try_from_iter rejected {} providers: {}", v.len(), e)))
+}
+
+fn key_info(b: &Blob) -> Result<pdu::RouterKeyInfo, Fail> {
+    pdu::RouterKeyInfo::new(bytes::Bytes::from(b.bytes()))
+        .map_err(|e| Fail::new(format!("RouterKeyInfo::new rejected {} bytes: {}", b.len, e)))
+}
+
+fn build(spec: &PduSpec) -> Result<Lib, Fail> {
+    Ok(match spec {
+        PduSpec::SerialNotify { version, session, serial } => {
+            Lib::SerialNotify(pdu::SerialNotify::new(*version, State::from_parts(*session, Serial(*serial))))
+        }
+        PduSpec::SerialQuery { version, session, serial } => {
+            Lib::SerialQuery(pdu::SerialQuery::new(*version, State::from_parts(*session, Serial(*serial))))
+        }
+        PduSpec::ResetQuery { version } => Lib::ResetQuery(pdu::ResetQuery::new(*version)),
+        PduSpec::CacheResponse { version, session } => {
+            Lib::CacheResponse(pdu::CacheResponse::new(*version, State::from_parts(*session, Serial(0))))
+        }
+        PduSpec::V4 { version, flags, len, max_len, addr, asn } => Lib::V4(pdu::Ipv4Prefix::new(
+            *version,
+            *flags,
+            *len,
+            *max_len,
+            Ipv4Addr::from(*addr),
+            Asn::from_u32(*asn),
+        )),
+        PduSpec::V6 { version, flags, len, max_len, addr, asn } => Lib::V6(pdu::Ipv6Prefix::new(
+            *version,
+            *flags,
+            *len,
+            *max_len,
+            Ipv6Addr::from(addr.0),
+            Asn::from_u32(*asn),
+        )),
+        PduSpec::Eod { version, session, serial, refresh, retry, expire } => eod_to_lib(pdu::EndOfData::new(
+            *version,
+            State::from_parts(*session, Serial(*serial)),
+            pl::Timing { refresh: *refresh, retry: *retry, expire: *expire },
+        )),
+        PduSpec::CacheReset { version } => Lib::CacheReset(pdu::CacheReset::new(*version)),
+        PduSpec::RouterKey { version, flags, ski, asn, info } => Lib::RouterKey(pdu::RouterKey::new(
+            *version,
+            *flags,
+            ski_bytes(*ski),
+            Asn::from_u32(*asn),
+            key_info(info)?,
+        )),
+        PduSpec::Error { version, code, pdu: p, text } => {
+            Lib::Error(pdu::Error::new(*version, *code, p.bytes(), text.bytes()))
+        }
+        PduSpec::Aspa { version, flags, customer, provs } => Lib::Aspa(pdu::Aspa::new(
+            *version,
+            *flags,
+            Asn::from_u32(*customer),
+            provider_asns(&provs.asns())?,
+        )),
+    })
+}
+
+impl Lib {
+    fn kind(&self) -> Kind {
+        match self {
+            Lib::SerialNotify(_) => Kind::SerialNotify,
+            Lib::SerialQuery(_) => Kind::SerialQuery,
+            Lib::ResetQuery(_) => Kind::ResetQuery,
+            Lib::CacheResponse(_) => Kind::CacheResponse,
+            Lib::V4(_) => Kind::V4,
+            Lib::V6(_) => Kind::V6,
+            Lib::EodV0(_) => Kind::EodV0,
+            Lib::EodV1(_) => Kind::EodV1,
+            Lib::CacheReset(_) => Kind::CacheReset,
+            Lib::RouterKey(_) => Kind::RouterKey,
+            Lib::Error(_) => Kind::Error,
+            Lib::Aspa(_) => Kind::Aspa,
+        }
+    }
+
+    /// Bytes produced by the library's `write`.
+    fn write(&self) -> Result<Vec<u8>, Fail> {
+        let mut out = Vec::new();
+        let r = match self {
+            Lib::SerialNotify(p) => drive("write", p.write(&mut out))?,
+            Lib::SerialQuery(p) => drive("write", p.write(&mut out))?,
+            Lib::ResetQuery(p) => drive("write", p.write(&mut out))?,
+            Lib::CacheResponse(p) => drive("write", p.write(&mut out))?,
+            Lib::V4(p) => drive("write", p.write(&mut out))?,
+            Lib::V6(p) => drive("write", p.write(&mut out))?,
+            Lib::EodV0(p) => drive("write", p.write(&mut out))?,
+            Lib::EodV1(p) => drive("write", p.write(&mut out))?,
+            Lib::CacheReset(p) => drive("write", p.write(&mut out))?,
+            Lib::RouterKey(p) => drive("write", p.write(&mut out))?,
+            Lib::Error(p) => drive("write", p.write(&mut out))?,
+            Lib::Aspa(p) => drive("write", p.write(&mut out))?,
+        };
+        r.map_err(|e| Fail::new(format!("write into a Vec failed: {}", e)))?;
+        Ok(out)
+    }
+
+    /// The library's own idea of the PDU size, where it has one.
+    fn size(&self) -> Option<u32> {
+        Some(match self {
+            Lib::SerialNotify(_) => pdu::SerialNotify::size(),
+            Lib::SerialQuery(_) => pdu::SerialQuery::size(),
+            Lib::ResetQuery(_) => pdu::ResetQuery::size(),
+            Lib::CacheResponse(_) => pdu::CacheResponse::size(),
+            Lib::V4(_) => pdu::Ipv4Prefix::size(),
+            Lib::V6(_) => pdu::Ipv6Prefix::size(),
+            Lib::EodV0(_) => pdu::EndOfDataV0::size(),
+            Lib::EodV1(_) => pdu::EndOfDataV1::size(),
+            Lib::CacheReset(_) => pdu::CacheReset::size(),
+            Lib::RouterKey(p) => p.size(),
+            Lib::Aspa(p) => p.size(),
+            Lib::Error(_) => return None,
+        })
+    }
+}
+
+/// Accessor values of a library PDU against the values it was built from.
+fn check_accessors(lib: &Lib, spec: &PduSpec, what: &str) -> CheckResult {
+    match (lib, spec) {
+        (Lib::SerialNotify(p), PduSpec::SerialNotify { version, session, .. }) => {
+            ensure!(p.version() == *version && p.session() == *session, "{}: SerialNotify accessors {:?} vs {:?}", what, p, spec);
+        }
+        (Lib::SerialQuery(p), PduSpec::SerialQuery { version, session, .. }) => {
+            ensure!(p.version() == *version && p.session() == *session, "{}: SerialQuery accessors {:?} vs {:?}", what, p, spec);
+        }
+        (Lib::ResetQuery(p), PduSpec::ResetQuery { version }) => {
+            ensure!(p.version() == *version && p.session() == 0, "{}: ResetQuery accessors {:?} vs {:?}", what, p, spec);
+        }
+        (Lib::CacheResponse(p), PduSpec::CacheResponse { version, session }) => {
+            ensure!(p.version() == *version && p.session() == *session, "{}: CacheResponse accessors {:?} vs {:?}", what, p, spec);
+        }
+        (Lib::CacheReset(p), PduSpec::CacheReset { version }) => {
+            ensure!(p.version() == *version && p.session() == 0, "{}: CacheReset accessors {:?} vs {:?}", what, p, spec);
+        }
+        (Lib::V4(p), PduSpec::V4 { version, flags, len, max_len, addr, asn }) => {
+            ensure!(
+                p.version() == *version
+                    && p.flags() == *flags
+                    && p.prefix_len() == *len
+                    && p.max_len() == *max_len
+                    && p.prefix() == Ipv4Addr::from(*addr)
+                    && p.asn() == Asn::from_u32(*asn),
+                "{}: Ipv4Prefix accessors: version {} flags {} len {} max {} prefix {} asn {} vs {:?}",
+                what, p.version(), p.flags(), p.prefix_len(), p.max_len(), p.prefix(), p.asn(), spec
+            );
+        }
+        (Lib::V6(p), PduSpec::V6 { version, flags, len, max_len, addr, asn }) => {
+            ensure!(
+                p.version() == *version
+                    && p.flags() == *flags
+                    && p.prefix_len() == *len
+                    && p.max_len() == *max_len
+                    && p.prefix() == Ipv6Addr::from(addr.0)
+                    && p.asn() == Asn::from_u32(*asn),
+                "{}: Ipv6Prefix accessors: version {} flags {} len {} max {} prefix {} asn {} vs {:?}",
+                what, p.version(), p.flags(), p.prefix_len(), p.max_len(), p.prefix(), p.asn(), spec
+            );
+        }
+        (Lib::EodV0(p), PduSpec::Eod { version, session, serial, .. }) => {
+            ensure!(*version == 0, "{}: EndOfData::new({}) built the version 0 form", what, version);
+            ensure!(
+                p.version() == 0 && p.session() == *session && p.serial() == Serial(*serial),
+                "{}: EndOfDataV0 accessors {:?} vs {:?}", what, p, spec
+            );
+            let e = pdu::EndOfData::V0(*p);
+            ensure!(
+                e.version() == 0 && e.session() == *session && e.serial() == Serial(*serial) && e.timing().is_none()
+                    && e.state().session() == *session && e.state().serial() == Serial(*serial),
+                "{}: EndOfData accessors {:?} vs {:?}", what, e, spec
+            );
+        }
+        (Lib::EodV1(p), PduSpec::Eod { version, session, serial, refresh, retry, expire }) => {
+            let t = p.timing();
+            ensure!(
+                p.version() == *version && p.session() == *session && p.serial() == Serial(*serial)
+                    && t.refresh == *refresh && t.retry == *retry && t.expire == *expire,
+                "{}: EndOfDataV1 accessors {:?} vs {:?}", what, p, spec
+            );
+            let e = pdu::EndOfData::V1(*p);
+            let t = e.timing();
+            ensure!(
+                e.version() == *version && e.session() == *session && e.serial() == Serial(*serial)
+                    && e.state().session() == *session && e.state().serial() == Serial(*serial)
+                    && t.map(|t| (t.refresh, t.retry, t.expire)) == Some((*refresh, *retry, *expire)),
+                "{}: EndOfData accessors {:?} vs {:?}", what, e, spec
+            );
+        }
+        (Lib::RouterKey(p), PduSpec::RouterKey { version, flags, ski, asn, info }) => {
+            ensure!(
+                p.version() == *version && p.flags() == *flags && p.key_identifier() == ski_bytes(*ski)
+                    && p.asn() == Asn::from_u32(*asn) && p.key_info().as_slice() == &info.bytes()[..],
+                "{}: RouterKey accessors: version {} flags {} ski {:?} asn {} info-len {} vs {:?}",
+                what, p.version(), p.flags(), p.key_identifier(), p.asn(), p.key_info().as_slice().len(), spec
+            );
+        }
+        (Lib::Aspa(p), PduSpec::Aspa { version, flags, customer, provs }) => {
+            let got: Vec<u32> = p.providers().iter().map(|a| a.into_u32()).collect();
+            ensure!(
+                p.version() == *version && p.flags() == *flags && p.customer() == Asn::from_u32(*customer)
+                    && got == provs.asns() && p.providers().asn_count() == provs.count
+                    && p.providers().len() == 4 * provs.count as usize,
+                "{}: Aspa accessors: version {} flags {} customer {} providers {:?} vs {:?}",
+                what, p.version(), p.flags(), p.customer(), got, spec
+            );
+        }
+        (Lib::Error(p), PduSpec::Error { version, code, pdu: inner, text }) => {
+            // No reader returns an `Error` value; the header accessors are
+            // checked on the header read back, the body layout (RFC 8210
+            // section 5.11) here.
+            let b: &[u8] = p.as_ref();
+            let (ib, tb) = (inner.bytes(), text.bytes());
+            let mut exp = vec![*version, T_ERROR];
+            exp.extend_from_slice(&code.to_be_bytes());
+            exp.extend_from_slice(&((16 + ib.len() + tb.len()) as u32).to_be_bytes());
+            exp.extend_from_slice(&(ib.len() as u32).to_be_bytes());
+            exp.extend_from_slice(&ib);
+            exp.extend_from_slice(&(tb.len() as u32).to_be_bytes());
+            exp.extend_from_slice(&tb);
+            ensure!(b == &exp[..], "{}: Error PDU octets {:?} differ from header|len|pdu|len|text {:?}", what, b, exp);
+        }
+        _ => return Err(Fail::new(format!("{}: PDU kind changed: {:?} vs {:?}", what, lib, spec))),
+    }
+    Ok(())
+}
+
+//------------ readers ----------------------------------------------------------
+
+#[derive(Clone, Copy, Debug, PartialEq, Eq)]
+enum Rd {
+    /// `T::read`
+    Read,
+    /// `T::try_read`
+    TryRead,
+    /// `Header::read`, then `read_payload` / `skip_payload` of the announced type
+    Dispatch,
+    /// `pdu::Payload::read`
+    Payload,
+}
+
+#[derive(Debug)]
+enum Got {
+    Pdu(Lib),
+    /// `try_read` met an error PDU
+    ErrHeader(pdu::Header),
+    /// `skip_payload` returned Ok
+    Skipped(pdu::Header),
+    /// the dispatcher met a type it has no reader for
+    Unknown,
+    Io(io::Error),
+}
+
+macro_rules! concrete_reader {
+    ($T:ident, $V:ident, $rd:expr, $r:expr) => {
+        match $rd {
+            Rd::Read => match drive(concat!(stringify!($T), "::read"), pdu::$T::read($r))? {
+                Ok(v) => Got::Pdu(Lib::$V(v)),
+                Err(e) => Got::Io(e),
+            },
+            _ => match drive(concat!(stringify!($T), "::try_read"), pdu::$T::try_read($r))? {
+                Ok(Ok(v)) => Got::Pdu(Lib::$V(v)),
+                Ok(Err(h)) => Got::ErrHeader(h),
+                Err(e) => Got::Io(e),
+            },
+        }
+    };
+}
+
+macro_rules! payload_reader {
+    ($T:ident, $V:ident, $h:expr, $r:expr) => {
+        match drive(concat!(stringify!($T), "::read_payload"), pdu::$T::read_payload($h, $r))? {
+            Ok(v) => Got::Pdu(Lib::$V(v)),
+            Err(e) => Got::Io(e),
+        }
+    };
+}
+
+/// Which readers a peer expecting a PDU of kind `k` may use.
+fn readers_for(k: Kind) -> &'static [Rd] {
+    match k {
+        Kind::SerialNotify | Kind::SerialQuery | Kind::ResetQuery | Kind::CacheResponse | Kind::CacheReset => {
+            &[Rd::Read, Rd::TryRead, Rd::Dispatch]
+        }
+        Kind::V4 | Kind::V6 | Kind::EodV0 | Kind::EodV1 => &[Rd::Read, Rd::TryRead, Rd::Dispatch, Rd::Payload],
+        Kind::RouterKey | Kind::Aspa => &[Rd::Read, Rd::Dispatch, Rd::Payload],
+        // TryRead: a peer waiting for a cache response meets the error PDU
+        Kind::Error => &[Rd::Dispatch, Rd::TryRead],
+    }
+}
+
+fn run_reader(rd: Rd, k: Kind, r: &mut MemReader) -> Result<Got, Fail> {
+    Ok(match rd {
+        Rd::Read | Rd::TryRead => match k {
+            Kind::SerialNotify => concrete_reader!(SerialNotify, SerialNotify, rd, r),
+            Kind::SerialQuery => concrete_reader!(SerialQuery, SerialQuery, rd, r),
+            Kind::ResetQuery => concrete_reader!(ResetQuery, ResetQuery, rd, r),
+            // an error PDU is met by a peer waiting for a cache response
+            Kind::CacheResponse | Kind::Error => concrete_reader!(CacheResponse, CacheResponse, rd, r),
+            Kind::V4 => concrete_reader!(Ipv4Prefix, V4, rd, r),
+            Kind::V6 => concrete_reader!(Ipv6Prefix, V6, rd, r),
+            Kind::EodV0 => concrete_reader!(EndOfDataV0, EodV0, rd, r),
+            Kind::EodV1 => concrete_reader!(EndOfDataV1, EodV1, rd, r),
+            Kind::CacheReset => concrete_reader!(CacheReset, CacheReset, rd, r),
+            Kind::RouterKey => match drive("RouterKey::read", pdu::RouterKey::read(r))? {
+                Ok(v) => Got::Pdu(Lib::RouterKey(v)),
+                Err(e) => Got::Io(e),
+            },
+            Kind::Aspa => match drive("Aspa::read", pdu::Aspa::read(r))? {
+                Ok(v) => Got::Pdu(Lib::Aspa(v)),
+                Err(e) => Got::Io(e),
+            },
+        },
+        Rd::Dispatch => {
+            let h = match drive("Header::read", pdu::Header::read(r))? {
+                Ok(h) => h,
+                Err(e) => return Ok(Got::Io(e)),
+            };
+            match h.pdu() {
+                T_NOTIFY => payload_reader!(SerialNotify, SerialNotify, h, r),
+                T_SQUERY => payload_reader!(SerialQuery, SerialQuery, h, r),
+                T_RQUERY => payload_reader!(ResetQuery, ResetQuery, h, r),
+                T_RESPONSE => payload_reader!(CacheResponse, CacheResponse, h, r),
+                T_V4 => payload_reader!(Ipv4Prefix, V4, h, r),
+                T_V6 => payload_reader!(Ipv6Prefix, V6, h, r),
+                T_RESET => payload_reader!(CacheReset, CacheReset, h, r),
+                T_KEY => payload_reader!(RouterKey, RouterKey, h, r),
+                T_ASPA => payload_reader!(Aspa, Aspa, h, r),
+                T_EOD => match drive("EndOfData::read_payload", pdu::EndOfData::read_payload(h, r))? {
+                    Ok(v) => Got::Pdu(eod_to_lib(v)),
+                    Err(e) => Got::Io(e),
+                },
+                T_ERROR => match drive("Error::skip_payload", pdu::Error::skip_payload(h, r))? {
+                    Ok(()) => Got::Skipped(h),
+                    Err(e) => Got::Io(e),
+                },
+                _ => Got::Unknown,
+            }
+        }
+        Rd::Payload => match drive("Payload::read", pdu::Payload::read(r))? {
+            Ok(Ok(Some(pdu::Payload::V4(v)))) => Got::Pdu(Lib::V4(v)),
+            Ok(Ok(Some(pdu::Payload::V6(v)))) => Got::Pdu(Lib::V6(v)),
+            Ok(Ok(Some(pdu::Payload::RouterKey(v)))) => Got::Pdu(Lib::RouterKey(v)),
+            Ok(Ok(Some(pdu::Payload::Aspa(v)))) => Got::Pdu(Lib::Aspa(v)),
+            Ok(Ok(Some(other))) => return Err(Fail::new(format!("Payload::read returned unknown variant {:?}", other))),
+            Ok(Ok(None)) => return Err(Fail::new("Payload::read returned Ok(None) for a payload type the crate supports")),
+            Ok(Err(eod)) => Got::Pdu(eod_to_lib(eod)),
+            Err(e) => Got::Io(e),
+        },
+    })
+}
+
+//------------ reference model of the readers' header rules ---------------------
+
+#[derive(Clone, Copy, Debug, PartialEq, Eq)]
+enum EodRule {
+    ByVersion,
+    V0,
+    V1,
+}
+
+/// Is `len` a possible length of a PDU of type `t`? `None`: unknown type.
+fn len_rule(t: u8, ver: u8, len: u32, eod: EodRule) -> Option<bool> {
+    Some(match t {
+        T_NOTIFY | T_SQUERY => len == 12,
+        T_RQUERY | T_RESPONSE | T_RESET => len == 8,
+        T_V4 => len == 20,
+        T_V6 => len == 32,
+        T_KEY => len >= 32,
+        T_ASPA => len >= 12 && (len - 12) % 4 == 0,
+        T_ERROR => len >= 8,
+        T_EOD => match eod {
+            EodRule::V0 => len == 12,
+            EodRule::V1 => len == 24,
+            EodRule::ByVersion => match ver {
+                0 => len == 12,
+                1 | 2 => len == 24,
+                _ => false,
+            },
+        },
+        _ => return None,
+    })
+}
+
+#[derive(Clone, Copy, Debug, PartialEq, Eq)]
+enum Exp {
+    Err,
+    /// Ok after consuming exactly this many bytes
+    Ok(usize),
+    ErrHeader,
+    Unknown,
+    /// reader not run: it would allocate the (huge) announced length
+    Skip,
+}
+
+fn header_of(s: &[u8]) -> Option<(u8, u8, u32)> {
+    if s.len() < 8 {
+        None
+    } else {
+        Some((s[0], s[1], u32::from_be_bytes([s[4], s[5], s[6], s[7]])))
+    }
+}
+
+/// What reader `rd` of a peer expecting kind `k` must do on stream `s`.
+fn model(rd: Rd, k: Kind, s: &[u8]) -> Exp {
+    let Some((ver, t, len)) = header_of(s) else { return Exp::Err };
+    let (want_t, eod) = match rd {
+        Rd::Read | Rd::TryRead => {
+            if rd == Rd::TryRead && t == T_ERROR {
+                return Exp::ErrHeader;
+            }
+            let kk = if k == Kind::Error { Kind::CacheResponse } else { k };
+            let eod = match kk {
+                Kind::EodV0 => EodRule::V0,
+                Kind::EodV1 => EodRule::V1,
+                _ => EodRule::ByVersion,
+            };
+            (Some(kk.type_byte()), eod)
+        }
+        Rd::Dispatch => (None, EodRule::ByVersion),
+        Rd::Payload => {
+            if !matches!(t, T_V4 | T_V6 | T_KEY | T_ASPA | T_EOD) {
+                return Exp::Err;
+            }
+            (None, EodRule::ByVersion)
+        }
+    };
+    if let Some(w) = want_t {
+        if t != w {
+            return Exp::Err;
+        }
+    }
+    match len_rule(t, ver, len, eod) {
+        None => Exp::Unknown,
+        Some(false) => Exp::Err,
+        Some(true) => {
+            if matches!(t, T_KEY | T_ASPA) && len > ALLOC_CAP {
+                Exp::Skip
+            } else if (s.len() as u64) < len as u64 {
+                Exp::Err
+            } else {
+                Exp::Ok(len as usize)
+            }
+        }
+    }
+}
+
+fn got_name(g: &Got) -> String {
+    match g {
+        Got::Pdu(l) => format!("Ok({:?})", l.kind()),
+        Got::ErrHeader(h) => format!("Ok(Err(header type {}))", h.pdu()),
+        Got::Skipped(_) => "Ok(skipped)".into(),
+        Got::Unknown => "unknown type (dispatcher stops)".into(),
+        Got::Io(e) => format!("Err({})", e),
+    }
+}
+
+/// Runs one reader on `s` and judges the outcome. Returns what was read.
+fn read_and_judge(rd: Rd, k: Kind, s: &[u8], chunks: &[u8], what: &str) -> Result<Option<Got>, Fail> {
+    let exp = model(rd, k, s);
+    if exp == Exp::Skip {
+        return Ok(None);
+    }
+    let mut r = MemReader::new(s, chunks);
+    let got = run_reader(rd, k, &mut r)?;
+    let ctx = || format!("{} {:?} expecting {:?} on {} octets (header {:?})", what, rd, k, s.len(), header_of(s));
+    ensure_sig!(
+        !r.aborted && r.eof_polls <= EOF_POLL_LIMIT,
+        if matches!(rd, Rd::Dispatch) && header_of(s).map(|h| h.1) == Some(T_ERROR) {
+            "eof-spin:Error::skip_payload".to_string()
+        } else {
+            format!("eof-spin:{:?}", rd)
+        },
+        "{}: reader polled {} times at end of stream{} (limit {}): the operation spins on a closed stream; result {}",
+        ctx(), r.eof_polls, if r.aborted { " and had to be aborted" } else { "" }, EOF_POLL_LIMIT, got_name(&got)
+    );
+    let served = r.served();
+    match exp {
+        Exp::Err => {
+            ensure!(matches!(got, Got::Io(_)), "{}: expected an error, got {}", ctx(), got_name(&got));
+            if let Some((_, _, len)) = header_of(s) {
+                let bound = (len as usize).max(8);
+                ensure!(served <= bound, "{}: failed after consuming {} octets, more than max(8, announced length) = {}", ctx(), served, bound);
+            }
+        }
+        Exp::Ok(n) => {
+            ensure!(matches!(got, Got::Pdu(_) | Got::Skipped(_)), "{}: expected success, got {}", ctx(), got_name(&got));
+            ensure!(served == n, "{}: succeeded after consuming {} octets, announced length is {}", ctx(), served, n);
+        }
+        Exp::ErrHeader => {
+            match &got {
+                Got::ErrHeader(h) => {
+                    ensure!(h.pdu() == T_ERROR && h.version() == s[0], "{}: try_read returned header {:?}", ctx(), h)
+                }
+                _ => return Err(Fail::new(format!("{}: expected Ok(Err(header)), got {}", ctx(), got_name(&got)))),
+            }
+            ensure!(served == 8, "{}: try_read consumed {} octets for the header of an error PDU", ctx(), served);
+        }
+        Exp::Unknown => {
+            ensure!(matches!(got, Got::Unknown), "{}: harness dispatcher: {}", ctx(), got_name(&got));
+        }
+        Exp::Skip => unreachable!(),
+    }
+    Ok(Some(got))
+}
+
+//------------ generators -------------------------------------------------------
+
+fn version_s() -> BoxedStrategy<u8> {
+    prop_oneof![8 => 0u8..=2, 1 => 3u8..=255].boxed()
+}
+
+fn flags_s() -> BoxedStrategy<u8> {
+    prop_oneof![4 => 0u8..=1, 1 => any::<u8>(), 1 => prop::sample::select(vec![2u8, 3, 128, 129, 254, 255])].boxed()
+}
+
+/// Blob of up to `max` bytes; `big` is the weight (out of ~20) of sizes above 96.
+fn blob_s(max: u32, big: u32) -> BoxedStrategy<Blob> {
+    let len = prop_oneof![
+        8 => 0u32..=8,
+        8 => 0u32..=96.min(max),
+        big => 0u32..=max,
+        big => (max.saturating_sub(3))..=max,
+    ];
+    (len, any::<u8>(), prop_oneof![Just(0u8), Just(1), any::<u8>()]).prop_map(|(len, start, step)| Blob { len, start, step }).boxed()
+}
+
+fn provs_s(max: u16, big: u32) -> BoxedStrategy<Provs> {
+    let count = prop_oneof![8 => 0u16..=3, 6 => 0u16..=24.min(max), big => 0u16..=max, big => (max.saturating_sub(1))..=max];
+    (count, dense_u32(), prop_oneof![Just(1u32), Just(0), dense_u32()]).prop_map(|(count, base, step)| Provs { count, base, step }).boxed()
+}
+
+fn len_byte_s(fam: u8) -> BoxedStrategy<u8> {
+    prop_oneof![6 => 0u8..=fam, 1 => fam..=fam.saturating_add(2), 1 => any::<u8>()].boxed()
+}
+
+/// `big`: weight of large variable parts (keeps the quadratic truncation
+/// sweep affordable).
+fn pdu_s(big: u32) -> BoxedStrategy<PduSpec> {
+    let v = version_s;
+    prop_oneof![
+        (v(), any::<u16>(), dense_u32()).prop_map(|(version, session, serial)| PduSpec::SerialNotify { version, session, serial }),
+        (v(), any::<u16>(), dense_u32()).prop_map(|(version, session, serial)| PduSpec::SerialQuery { version, session, serial }),
+        v().prop_map(|version| PduSpec::ResetQuery { version }),
+        (v(), any::<u16>()).prop_map(|(version, session)| PduSpec::CacheResponse { version, session }),
+        (v(), flags_s(), len_byte_s(32), len_byte_s(32), dense_u32(), dense_u32(), any::<bool>()).prop_map(
+            |(version, flags, len, max_len, addr, asn, align)| {
+                let addr = if align && len <= 32 { if len == 0 { 0 } else { addr & (u32::MAX << (32 - len as u32)) } } else { addr };
+                PduSpec::V4 { version, flags, len, max_len, addr, asn }
+            }
+        ),
+        (v(), flags_s(), len_byte_s(128), len_byte_s(128), dense_u128(), dense_u32(), any::<bool>()).prop_map(
+            |(version, flags, len, max_len, addr, asn, align)| {
+                let addr = if align && len <= 128 { if len == 0 { 0 } else { addr & (u128::MAX << (128 - len as u32)) } } else { addr };
+                PduSpec::V6 { version, flags, len, max_len, addr: U128(addr), asn }
+            }
+        ),
+        (v(), any::<u16>(), dense_u32(), dense_u32(), dense_u32(), dense_u32()).prop_map(
+            |(version, session, serial, refresh, retry, expire)| PduSpec::Eod { version, session, serial, refresh, retry, expire }
+        ),
+        v().prop_map(|version| PduSpec::CacheReset { version }),
+        (v(), flags_s(), any::<(u8, u8)>(), dense_u32(), blob_s(4096, big))
+            .prop_map(|(version, flags, ski, asn, info)| PduSpec::RouterKey { version, flags, ski, asn, info }),
+        (v(), prop_oneof![3 => 0u16..=11, 1 => any::<u16>()], blob_s(2048, big), blob_s(2048, big))
+            .prop_map(|(version, code, pdu, text)| PduSpec::Error { version, code, pdu, text }),
+        (v(), flags_s(), dense_u32(), provs_s(300, big))
+            .prop_map(|(version, flags, customer, provs)| PduSpec::Aspa { version, flags, customer, provs }),
+    ]
+    .boxed()
+}
+
+fn chunks_s() -> BoxedStrategy<Vec<u8>> {
+    prop_oneof![
+        1 => Just(vec![0u8]),
+        1 => Just(vec![1u8]),
+        4 => prop::collection::vec(1u8..=11, 1..6),
+        2 => prop::collection::vec(prop_oneof![3 => 1u8..=11, 1 => 12u8..=255, 1 => Just(0u8)], 1..8),
+    ]
+    .boxed()
+}
+
+#[derive(Clone, Debug, Serialize, Deserialize)]
+pub struct SeqCase {
+    pub pdus: Vec<PduSpec>,
+    pub chunks: Vec<u8>,
+}
+
+fn seq_strategy(_: Tier) -> BoxedStrategy<SeqCase> {
+    (prop::collection::vec(pdu_s(2), 1..=6), chunks_s()).prop_map(|(pdus, chunks)| SeqCase { pdus, chunks }).boxed()
+}
+
+fn seq_strategy_small(_: Tier) -> BoxedStrategy<SeqCase> {
+    (prop::collection::vec(pdu_s(1), 1..=6), chunks_s()).prop_map(|(pdus, chunks)| SeqCase { pdus, chunks }).boxed()
+}
+
+/// Builds and writes all PDUs: (library value, octets) per PDU.
+fn encode_all(pdus: &[PduSpec]) -> Result<Vec<(Lib, Vec<u8>)>, Fail> {
+    pdus.iter()
+        .map(|s| {
+            let l = build(s)?;
+            let b = l.write()?;
+            Ok((l, b))
+        })
+        .collect()
+}
+
+/// Class labels count cases, not occurrences.
+fn label_once(obs: &mut Obs, l: &'static str) {
+    if !obs.labels.contains(&l) {
+        obs.label(l);
+    }
+}
+
+//------------ roundtrip --------------------------------------------------------
+
+/// What `to_payload` must give for an origin PDU with these raw fields.
+fn expected_origin(v6: bool, addr: u128, len: u8, max_len: u8, asn: u32) -> Option<pl::Payload> {
+    let fam = if v6 { 128 } else { 32 };
+    if len > fam || max_len < len || max_len > fam {
+        return None;
+    }
+    let host = (fam - len) as u32;
+    let cleared = if host == 0 { addr } else if host >= 128 { 0 } else { addr & !((1u128 << host) - 1) };
+    let p = if v6 {
+        Prefix::new_v6(Ipv6Addr::from(cleared), len)
+    } else {
+        Prefix::new_v4(Ipv4Addr::from(cleared as u32), len)
+    }
+    .ok()?;
+    Some(pl::Payload::origin(MaxLenPrefix::new(p, Some(max_len)).ok()?, Asn::from_u32(asn)))
+}
+
+fn as_payload_pdu(l: &Lib) -> Option<pdu::Payload> {
+    match l {
+        Lib::V4(p) => Some(pdu::Payload::V4(*p)),
+        Lib::V6(p) => Some(pdu::Payload::V6(*p)),
+        Lib::RouterKey(p) => Some(pdu::Payload::RouterKey(p.clone())),
+        Lib::Aspa(p) => Some(pdu::Payload::Aspa(p.clone())),
+        _ => None,
+    }
+}
+
+/// `to_payload` of a payload PDU read back, against the harness' expectation.
+fn check_to_payload(p: &pdu::Payload, spec: &PduSpec) -> CheckResult {
+    let res = no_panic("to_payload", || p.to_payload())?;
+    let (flags, exp): (u8, Option<pl::Payload>) = match spec {
+        PduSpec::V4 { flags, len, max_len, addr, asn, .. } => (*flags, expected_origin(false, *addr as u128, *len, *max_len, *asn)),
+        PduSpec::V6 { flags, len, max_len, addr, asn, .. } => (*flags, expected_origin(true, addr.0, *len, *max_len, *asn)),
+        PduSpec::RouterKey { flags, ski, asn, info, .. } => (
+            *flags,
+            Some(pl::Payload::router_key(KeyIdentifier::from(ski_bytes(*ski)), Asn::from_u32(*asn), key_info(info)?)),
+        ),
+        PduSpec::Aspa { flags, customer, provs, .. } => {
+            // a withdrawal names the customer only: the provider list is dropped
+            let pr = if flags & 1 == 1 { provs.asns() } else { Vec::new() };
+            (*flags, Some(pl::Payload::aspa(Asn::from_u32(*customer), provider_asns(&pr)?)))
+        }
+        _ => return Ok(()),
+    };
+    ensure!(p.flags() == flags, "Payload::flags() = {} for {:?}", p.flags(), spec);
+    let exp_action = if flags & 1 == 1 { pl::Action::Announce } else { pl::Action::Withdraw };
+    match (res, exp) {
+        (Ok((action, item)), Some(exp)) => {
+            ensure!(action == exp_action, "to_payload of {:?}: action {:?}, expected {:?}", spec, action, exp_action);
+            ensure!(item == exp, "to_payload of {:?}: item {:?}, expected {:?}", spec, item, exp);
+            if let (pl::Payload::Origin(a), pl::Payload::Origin(b)) = (&item, &exp) {
+                ensure!(
+                    a.prefix.prefix() == b.prefix.prefix() && a.prefix.resolved_max_len() == b.prefix.resolved_max_len() && a.asn == b.asn,
+                    "to_payload of {:?}: origin fields {:?}, expected {:?}", spec, a, b
+                );
+            }
+        }
+        (Err(_), None) => {}
+        (Ok(got), None) => {
+            return Err(Fail::new(format!("to_payload accepted {:?}, which is no valid origin: {:?}", spec, got)));
+        }
+        (Err(_), Some(exp)) => {
+            return Err(Fail::new(format!("to_payload rejected {:?}, expected {:?}", spec, exp)));
+        }
+    }
+    Ok(())
+}
+
+fn run_roundtrip(c: &SeqCase, obs: &mut Obs) -> CheckResult {
+    let enc = encode_all(&c.pdus)?;
+    let mut stream = Vec::new();
+    let mut evals = 0u64;
+    for (i, ((lib, bytes), spec)) in enc.iter().zip(&c.pdus).enumerate() {
+        label_once(obs, spec.kind_label());
+        check_accessors(lib, spec, "constructed")?;
+        // length field == bytes written (== the library's size())
+        let Some((ver, t, len)) = header_of(bytes) else {
+            return Err(Fail::new(format!("PDU {} {:?}: only {} octets written", i, spec, bytes.len())));
+        };
+        ensure!(
+            len as usize == bytes.len(),
+            "PDU {} {:?}: length field says {}, {} octets written", i, spec, len, bytes.len()
+        );
+        if let Some(sz) = lib.size() {
+            ensure!(sz as usize == bytes.len(), "PDU {} {:?}: size() = {}, {} octets written", i, spec, sz, bytes.len());
+        }
+        ensure!(t == lib.kind().type_byte(), "PDU {} {:?}: type octet {}", i, spec, t);
+        stream.extend_from_slice(bytes);
+        // every reader on this PDU followed by the rest of the sequence
+        let mut tail = bytes.clone();
+        for (_, b) in &enc[i + 1..] {
+            tail.extend_from_slice(b);
+        }
+        for &rd in readers_for(lib.kind()) {
+            // a version outside 0..=2 makes the version-split end-of-data readers refuse
+            let Some(got) = read_and_judge(rd, lib.kind(), &tail, &c.chunks, "intact")? else { continue };
+            evals += 1;
+            match got {
+                Got::Pdu(back) => {
+                    ensure!(&back == lib, "{:?} of PDU {}: read {:?}, written {:?}", rd, i, back, lib);
+                    check_accessors(&back, spec, "read back")?;
+                    if rd == Rd::Payload {
+                        if let Some(p) = as_payload_pdu(&back) {
+                            ensure!(p.version() == ver, "Payload::version() = {} for {:?}", p.version(), spec);
+                            check_to_payload(&p, spec)?;
+                        }
+                    }
+                }
+                Got::Skipped(h) | Got::ErrHeader(h) => {
+                    let PduSpec::Error { version, code, .. } = spec else {
+                        return Err(Fail::new(format!("{:?} of PDU {} {:?}: treated as an error PDU", rd, i, spec)));
+                    };
+                    ensure!(
+                        h.version() == *version && h.pdu() == T_ERROR && h.session() == *code && h.length() as usize == bytes.len()
+                            && h.pdu_len().ok() == Some(bytes.len()),
+                        "header of error PDU read back as {:?}, built from {:?}", h, spec
+                    );
+                }
+                Got::Io(e) => {
+                    // only legitimate for end-of-data with a version the split does not know
+                    let eod_version = matches!(spec, PduSpec::Eod { version, .. } if *version > 2);
+                    ensure!(
+                        eod_version && matches!(rd, Rd::Dispatch | Rd::Payload),
+                        "{:?} of intact PDU {} {:?} failed: {}", rd, i, spec, e
+                    );
+                }
+                Got::Unknown => return Err(Fail::new(format!("PDU {} {:?}: type octet {} unknown to the dispatcher", i, spec, t))),
+            }
+        }
+        if let (Lib::SerialQuery(_), PduSpec::SerialQuery { serial, .. }) = (lib, spec) {
+            // the server's way of reading a serial query
+            let mut r = MemReader::new(bytes, &c.chunks);
+            let h = drive("Header::read", pdu::Header::read(&mut r))?.map_err(|e| Fail::new(format!("Header::read: {}", e)))?;
+            let p = drive("SerialQueryPayload::read", pdu::SerialQueryPayload::read(&mut r))?
+                .map_err(|e| Fail::new(format!("SerialQueryPayload::read: {}", e)))?;
+            ensure!(
+                h.pdu() == T_SQUERY && h.length() == 12 && p.serial() == Serial(*serial) && r.served() == 12,
+                "serial query read as header {:?} + payload serial {:?}, built from {:?}", h, p.serial(), spec
+            );
+        }
+    }
+    // the whole sequence through the dispatcher, one PDU after the other
+    let mut r = MemReader::new(&stream, &c.chunks);
+    for (i, (lib, bytes)) in enc.iter().enumerate() {
+        let before = r.served();
+        let got = run_reader(Rd::Dispatch, lib.kind(), &mut r)?;
+        let eod_version = matches!(&c.pdus[i], PduSpec::Eod { version, .. } if *version > 2);
+        match got {
+            Got::Pdu(back) => ensure!(&back == lib, "sequence position {}: read {:?}, written {:?}", i, back, lib),
+            Got::Skipped(_) => ensure!(matches!(lib, Lib::Error(_)), "sequence position {}: skipped a non-error PDU", i),
+            Got::Io(_) if eod_version => break,
+            other => return Err(Fail::new(format!("sequence position {} ({:?}): {}", i, c.pdus[i], got_name(&other)))),
+        }
+        ensure!(r.served() - before == bytes.len(), "sequence position {}: consumed {} of {} octets", i, r.served() - before, bytes.len());
+        if i + 1 == enc.len() {
+            let end = run_reader(Rd::Dispatch, lib.kind(), &mut r)?;
+            ensure!(matches!(end, Got::Io(_)) && r.eof_polls <= EOF_POLL_LIMIT && !r.aborted, "reading past the end of the sequence: {}", got_name(&end));
+        }
+    }
+    obs.evals(evals);
+    obs.nontrivial_if(c.pdus.iter().any(|p| p.variable()));
+    obs.label_if(c.pdus.iter().any(|p| p.variable()), "variable-length");
+    Ok(())
+}
+
+//------------ truncate ---------------------------------------------------------
+
+fn run_truncate(c: &SeqCase, obs: &mut Obs) -> CheckResult {
+    let enc = encode_all(&c.pdus)?;
+    let mut evals = 0u64;
+    let mut body = false;
+    for (i, (lib, bytes)) in enc.iter().enumerate() {
+        label_once(obs, c.pdus[i].kind_label());
+        let k = lib.kind();
+        // Reading the sequence up to a cut inside PDU i reads PDUs 0..i in
+        // full (covered by roundtrip) and then meets this prefix.
+        for cut in 0..bytes.len() {
+            let s = &bytes[..cut];
+            body |= cut > 8;
+            for &rd in readers_for(k) {
+                let exp = model(rd, k, s);
+                if exp == Exp::Skip {
+                    continue; // huge announced length on an allocating reader: not run
+                }
+                ensure!(matches!(exp, Exp::Err | Exp::ErrHeader), "harness model: proper prefix expected to give {:?}", exp);
+                if let Err(mut f) = read_and_judge(rd, k, s, &c.chunks, "truncated").map(|_| ()) {
+                    f.msg = format!("PDU {} {:?} cut after {} of {} octets: {}", i, c.pdus[i].kind_label(), cut, bytes.len(), f.msg);
+                    return Err(f);
+                }
+                evals += 1;
+            }
+        }
+    }
+    obs.evals(evals);
+    obs.nontrivial_if(body);
+    obs.label_if(body, "body-truncation");
+    Ok(())
+}
+
+//------------ corrupt ----------------------------------------------------------
+
+#[derive(Clone, Debug, PartialEq, Eq, Serialize, Deserialize)]
+pub enum Field {
+    Type(u8),
+    Version(u8),
+    LenAbs(u32),
+    LenPlus(u32),
+    LenMinus(u32),
+}
+
+#[derive(Clone, Debug, Serialize, Deserialize)]
+pub struct CorruptCase {
+    pub pdus: Vec<PduSpec>,
+    pub chunks: Vec<u8>,
+    /// which PDU (monotone index mapping)
+    pub target: u16,
+    pub field: Field,
+}
+
+fn field_s() -> BoxedStrategy<Field> {
+    prop_oneof![
+        3 => prop_oneof![3 => 0u8..=12, 1 => any::<u8>()].prop_map(Field::Type),
+        2 => prop_oneof![3 => 0u8..=3, 1 => any::<u8>()].prop_map(Field::Version),
+        2 => prop_oneof![
+            4 => prop::sample::select(vec![0u32, 1, 7, 8, 9, 11, 12, 13, 16, 20, 24, 28, 31, 32, 33, 36, 0xFFFF, 0x1_0000, 0x8000_0000, u32::MAX - 1, u32::MAX]),
+            1 => dense_u32(),
+        ].prop_map(Field::LenAbs),
+        2 => (1u32..=64).prop_map(Field::LenPlus),
+        2 => (1u32..=64).prop_map(Field::LenMinus),
+    ]
+    .boxed()
+}
+
+/// Keeps announced lengths small on the PDU types whose readers allocate
+/// the announced length before reading.
+fn cap_len_field(kind_allocates: bool, f: Field) -> Field {
+    match f {
+        Field::LenAbs(v) if kind_allocates && v > ALLOC_CAP => Field::LenAbs([0x1_0000, 0xFFFF, ALLOC_CAP][(v % 3) as usize]),
+        f => f,
+    }
+}
+
+fn corrupt_strategy(_: Tier) -> BoxedStrategy<CorruptCase> {
+    (prop::collection::vec(pdu_s(1), 1..=4), chunks_s(), any::<u16>(), field_s())
+        .prop_map(|(pdus, chunks, target, field)| {
+            let t = &pdus[pick_idx(target, pdus.len())];
+            let field = cap_len_field(matches!(t, PduSpec::RouterKey { .. } | PduSpec::Aspa { .. }), field);
+            CorruptCase { pdus, chunks, target, field }
+        })
+        .boxed()
+}
+
+/// Applies the mutation to the header at the start of `s`; false if nothing changed.
+fn apply_field(s: &mut [u8], f: &Field) -> bool {
+    let old = [s[0], s[1], s[4], s[5], s[6], s[7]];
+    let len = u32::from_be_bytes([s[4], s[5], s[6], s[7]]);
+    match f {
+        Field::Type(t) => s[1] = *t,
+        Field::Version(v) => s[0] = *v,
+        Field::LenAbs(v) => s[4..8].copy_from_slice(&v.to_be_bytes()),
+        Field::LenPlus(k) => s[4..8].copy_from_slice(&len.saturating_add(*k).to_be_bytes()),
+        Field::LenMinus(k) => s[4..8].copy_from_slice(&len.saturating_sub(*k).to_be_bytes()),
+    }
+    old != [s[0], s[1], s[4], s[5], s[6], s[7]]
+}
+
+fn run_corrupt(c: &CorruptCase, obs: &mut Obs) -> CheckResult {
+    let enc = encode_all(&c.pdus)?;
+    let ti = pick_idx(c.target, enc.len());
+    let k = enc[ti].0.kind();
+    obs.label(c.pdus[ti].kind_label());
+    // the stream as the reader meets it: the target PDU and everything after
+    let mut s = Vec::new();
+    for (_, b) in &enc[ti..] {
+        s.extend_from_slice(b);
+    }
+    let changed = apply_field(&mut s, &c.field);
+    obs.label(match c.field {
+        Field::Type(_) => "f:type",
+        Field::Version(_) => "f:version",
+        _ => "f:length",
+    });
+    obs.label_if(!changed, "unchanged");
+    obs.nontrivial_if(changed);
+    let mut evals = 0u64;
+    for &rd in readers_for(k) {
+        let exp = model(rd, k, &s);
+        label_once(obs, match exp {
+            Exp::Err => "exp:err",
+            Exp::Ok(_) => "exp:ok",
+            Exp::ErrHeader => "exp:err-header",
+            Exp::Unknown => "exp:unknown-type",
+            Exp::Skip => "exp:not-run-alloc",
+        });
+        // The stated clause: a *wrong* type or length ends in an error. Make
+        // sure the model never lets a changed type/length of a fixed-size PDU
+        // through for the readers that know what they expect.
+        if changed && matches!(rd, Rd::Read | Rd::TryRead) && !matches!(k, Kind::RouterKey | Kind::Aspa | Kind::Error) {
+            let by_version_only = matches!(c.field, Field::Version(_));
+            ensure!(
+                by_version_only || matches!(exp, Exp::Err | Exp::ErrHeader),
+                "harness model: {:?} lets a corrupted fixed-size PDU through: {:?}", rd, exp
+            );
+        }
+        if let Err(mut f) = read_and_judge(rd, k, &s, &c.chunks, "corrupted").map(|_| ()) {
+            f.msg = format!("{:?} applied to PDU {} ({}): {}", c.field, ti, c.pdus[ti].kind_label(), f.msg);
+            return Err(f);
+        }
+        evals += 1;
+    }
+    obs.evals(evals.saturating_sub(1));
+    Ok(())
+}
+
+//------------ header-enum ------------------------------------------------------
+
+fn canon() -> Vec<PduSpec> {
+    let blob = |len| Blob { len, start: 0x40, step: 1 };
+    vec![
+        PduSpec::SerialNotify { version: 1, session: 0x1234, serial: 0xdead_beef },
+        PduSpec::SerialQuery { version: 1, session: 0x1234, serial: 7 },
+        PduSpec::ResetQuery { version: 2 },
+        PduSpec::CacheResponse { version: 2, session: 4 },
+        PduSpec::V4 { version: 1, flags: 1, len: 24, max_len: 26, addr: 0xC000_0200, asn: 64496 },
+        PduSpec::V6 { version: 1, flags: 0, len: 32, max_len: 48, addr: U128(0x2001_0db8 << 96), asn: 64497 },
+        PduSpec::Eod { version: 0, session: 9, serial: 1, refresh: 0, retry: 0, expire: 0 },
+        PduSpec::Eod { version: 1, session: 9, serial: 1, refresh: 3600, retry: 600, expire: 7200 },
+        PduSpec::Eod { version: 2, session: 9, serial: u32::MAX, refresh: 1, retry: 2, expire: 3 },
+        PduSpec::CacheReset { version: 1 },
+        PduSpec::RouterKey { version: 1, flags: 1, ski: (1, 1), asn: 64498, info: blob(0) },
+        PduSpec::RouterKey { version: 2, flags: 1, ski: (1, 1), asn: 64498, info: blob(91) },
+        PduSpec::Error { version: 1, code: 4, pdu: blob(0), text: blob(0) },
+        PduSpec::Error { version: 0, code: 2, pdu: blob(12), text: blob(21) },
+        PduSpec::Aspa { version: 2, flags: 1, customer: 64499, provs: Provs { count: 0, base: 0, step: 0 } },
+        PduSpec::Aspa { version: 2, flags: 1, customer: 64499, provs: Provs { count: 2, base: 64500, step: 1 } },
+        PduSpec::Aspa { version: 2, flags: 0, customer: 64499, provs: Provs { count: 5, base: 64500, step: 1 } },
+    ]
+}
+
+const ENUM_LENS: &[u32] = &[
+    0, 1, 2, 3, 4, 5, 6, 7, 8, 9, 10, 11, 12, 13, 14, 15, 16, 17, 18, 19, 20, 21, 22, 23, 24, 25, 26, 27, 28, 29, 30, 31, 32, 33, 34, 35, 36,
+    37, 38, 39, 40, 44, 48, 52, 56, 60, 64, 100, 122, 123, 124, 125, 127, 128, 255, 256, 257, 1023, 1024, 1025, 1032, 1033, 2048, 0xFFFF,
+    0x1_0000, 0x1_0001, 0x10_0000, 0x100_0000, 0x7FFF_FFFF, 0x8000_0000, 0x8000_0008, 0xFFFF_FFF0, 0xFFFF_FFFE, 0xFFFF_FFFF,
+];
+
+fn enum_per_pdu() -> u64 {
+    256 + 256 + ENUM_LENS.len() as u64
+}
+
+fn count_enum(_: Tier, _: u64) -> u64 {
+    canon().len() as u64 * enum_per_pdu() * 2
+}
+
+fn make_enum(_: Tier, _: u64, idx: u64) -> CorruptCase {
+    let c = canon();
+    let per = enum_per_pdu();
+    let with_tail = idx % 2 == 1;
+    let idx = idx / 2;
+    let spec = c[(idx / per) as usize].clone();
+    let j = idx % per;
+    let field = if j < 256 {
+        Field::Type(j as u8)
+    } else if j < 512 {
+        Field::Version((j - 256) as u8)
+    } else {
+        Field::LenAbs(ENUM_LENS[(j - 512) as usize])
+    };
+    let field = cap_len_field(matches!(spec, PduSpec::RouterKey { .. } | PduSpec::Aspa { .. }), field);
+    // with a tail there is something to over-read; without, the stream ends
+    let pdus = if with_tail {
+        vec![spec, PduSpec::Error { version: 1, code: 0, pdu: Blob { len: 40, start: 9, step: 3 }, text: Blob { len: 1100, start: 0, step: 7 } }]
+    } else {
+        vec![spec]
+    };
+    CorruptCase { pdus, chunks: vec![[0u8, 1, 3, 7][(idx % 4) as usize]], target: 0, field }
+}
+
+//------------ payload ----------------------------------------------------------
+
+#[derive(Clone, Debug, PartialEq, Eq, Serialize, Deserialize)]
+pub enum ItemSpec {
+    /// valid by construction of the generator: len <= family, host bits zero, len <= max_len <= family
+    Origin { v6: bool, addr: U128, len: u8, max_len: Option<u8>, asn: u32 },
+    RouterKey { ski: (u8, u8), asn: u32, info: Blob },
+    Aspa { customer: u32, provs: Provs },
+}
+
+#[derive(Clone, Debug, Serialize, Deserialize)]
+pub struct PayCase {
+    pub version: u8,
+    pub flags: u8,
+    pub item: ItemSpec,
+    pub chunks: Vec<u8>,
+}
+
+fn item_s(big: u32) -> BoxedStrategy<ItemSpec> {
+    prop_oneof![
+        (any::<bool>(), dense_u128(), any::<u8>(), prop::option::weighted(0.7, any::<u8>()), dense_u32()).prop_map(
+            |(v6, addr, len, ml, asn)| {
+                let fam: u8 = if v6 { 128 } else { 32 };
+                let len = len % (fam + 1);
+                let addr = if v6 { addr } else { (addr >> 96) ^ (addr & 0xFFFF_FFFF) };
+                let host = (if v6 { 128 } else { 32 } - len) as u32;
+                let addr = if host >= 128 { 0 } else { addr & !((1u128 << host) - 1) };
+                let max_len = ml.map(|m| len + m % (fam - len + 1));
+                ItemSpec::Origin { v6, addr: U128(addr), len, max_len, asn }
+            }
+        ),
+        (any::<(u8, u8)>(), dense_u32(), blob_s(4096, big)).prop_map(|(ski, asn, info)| ItemSpec::RouterKey { ski, asn, info }),
+        (dense_u32(), provs_s(300, big)).prop_map(|(customer, provs)| ItemSpec::Aspa { customer, provs }),
+    ]
+    .boxed()
+}
+
+fn pay_strategy(_: Tier) -> BoxedStrategy<PayCase> {
+    (version_s(), flags_s(), item_s(2), chunks_s()).prop_map(|(version, flags, item, chunks)| PayCase { version, flags, item, chunks }).boxed()
+}
+
+fn build_item(i: &ItemSpec) -> Result<pl::Payload, Fail> {
+    Ok(match i {
+        ItemSpec::Origin { v6, addr, len, max_len, asn } => {
+            let p = if *v6 {
+                Prefix::new_v6(Ipv6Addr::from(addr.0), *len)
+            } else {
+                Prefix::new_v4(Ipv4Addr::from(addr.0 as u32), *len)
+            }
+            .map_err(|e| Fail::new(format!("case outside the domain (invalid prefix {:?}): {}", i, e)))?;
+            let m = MaxLenPrefix::new(p, *max_len).map_err(|e| Fail::new(format!("case outside the domain (max-len {:?}): {}", i, e)))?;
+            pl::Payload::origin(m, Asn::from_u32(*asn))
+        }
+        ItemSpec::RouterKey { ski, asn, info } => {
+            pl::Payload::router_key(KeyIdentifier::from(ski_bytes(*ski)), Asn::from_u32(*asn), key_info(info)?)
+        }
+        ItemSpec::Aspa { customer, provs } => pl::Payload::aspa(Asn::from_u32(*customer), provider_asns(&provs.asns())?),
+    })
+}
+
+/// The item a receiver must end up with.
+fn expected_item(item: &pl::Payload, flags: u8) -> pl::Payload {
+    match item {
+        pl::Payload::Aspa(a) if flags & 1 == 0 => pl::Payload::Aspa(a.withdraw()),
+        other => other.clone(),
+    }
+}
+
+fn run_payload(c: &PayCase, obs: &mut Obs) -> CheckResult {
+    let item = build_item(&c.item)?;
+    let (label, min_version) = match c.item {
+        ItemSpec::Origin { v6: false, .. } => ("k:ipv4", 0),
+        ItemSpec::Origin { .. } => ("k:ipv6", 0),
+        ItemSpec::RouterKey { .. } => ("k:router-key", 1),
+        ItemSpec::Aspa { .. } => ("k:aspa", 2),
+    };
+    obs.label(label);
+    obs.label(if c.flags & 1 == 1 { "announce" } else { "withdraw" });
+    obs.nontrivial_if(min_version > 0);
+    let p = pdu::Payload::new(c.version, c.flags, item.as_ref());
+    ensure!(p.version() == c.version && p.flags() == c.flags, "Payload::new: version {} flags {} for {:?}", p.version(), p.flags(), c);
+    let sup = pdu::Payload::new_if_supported(c.version, c.flags, item.as_ref());
+    ensure!(sup.is_some() == (c.version >= min_version), "new_if_supported(version {}) of {:?}: {:?}", c.version, c.item, sup.is_some());
+    if let Some(s) = &sup {
+        ensure!(s == &p, "new_if_supported differs from new for {:?}", c);
+    }
+    let mut bytes = Vec::new();
+    drive("Payload::write", p.write(&mut bytes))?.map_err(|e| Fail::new(format!("write: {}", e)))?;
+    let Some((ver, _, len)) = header_of(&bytes) else { return Err(Fail::new("fewer than 8 octets written")) };
+    ensure!(len as usize == bytes.len(), "length field {} but {} octets written for {:?}", len, bytes.len(), c);
+    ensure!(ver == c.version, "version octet {} for {:?}", ver, c);
+    let mut r = MemReader::new(&bytes, &c.chunks);
+    let back = match drive("Payload::read", pdu::Payload::read(&mut r))? {
+        Ok(Ok(Some(b))) => b,
+        other => return Err(Fail::new(format!("Payload::read of a written payload PDU gave {:?} for {:?}", other, c))),
+    };
+    ensure!(r.served() == bytes.len(), "Payload::read consumed {} of {} octets", r.served(), bytes.len());
+    ensure!(back == p, "Payload::read gave {:?}, written {:?}", back, p);
+    ensure!(back.version() == c.version && back.flags() == c.flags, "read back version {} flags {} for {:?}", back.version(), back.flags(), c);
+    let (action, got) = no_panic("to_payload", || back.to_payload())?
+        .map_err(|_| Fail::new(format!("to_payload rejected the PDU made from valid item {:?}", c.item)))?;
+    let exp_action = if c.flags & 1 == 1 { pl::Action::Announce } else { pl::Action::Withdraw };
+    ensure!(action == exp_action, "action {:?} after the wire, flags were {}", action, c.flags);
+    if c.flags <= 1 {
+        ensure!(pl::Action::from_flags(c.flags) == exp_action && exp_action.into_flags() == c.flags, "Action <-> flags for {}", c.flags);
+    }
+    let exp = expected_item(&item, c.flags);
+    ensure!(got == exp, "item after the wire {:?}, expected {:?}", got, exp);
+    if let (pl::Payload::Origin(a), pl::Payload::Origin(b)) = (&got, &exp) {
+        ensure!(
+            a.prefix.prefix() == b.prefix.prefix() && a.prefix.resolved_max_len() == b.prefix.resolved_max_len() && a.asn == b.asn,
+            "origin fields after the wire {:?}, expected {:?}", a, b
+        );
+    }
+    Ok(())
+}
+
+//------------ client -----------------------------------------------------------
+
+#[derive(Clone, Debug, PartialEq, Eq, Serialize, Deserialize)]
+pub enum Fault {
+    None,
+    /// every proper prefix of the reply stream
+    Truncate,
+    Corrupt { target: u16, field: Field },
+}
+
+#[derive(Clone, Debug, Serialize, Deserialize)]
+pub struct ClientCase {
+    /// Some: the client starts with this state and sends a serial query
+    pub serial_mode: Option<(u16, u32)>,
+    /// Some(v), v < 2: the server first answers "unsupported protocol version" naming v
+    pub downgrade: Option<u8>,
+    pub err_pdu: Blob,
+    pub err_text: Blob,
+    /// serial mode only: a cache reset precedes the response
+    pub reset_first: bool,
+    /// 0..=2 (replaced by `downgrade` if that is set)
+    pub version: u8,
+    pub session: u16,
+    pub items: Vec<(u8, ItemSpec)>,
+    pub eod: (u32, u32, u32, u32),
+    pub fault: Fault,
+    pub chunks: Vec<u8>,
+}
+
+fn client_strategy(_: Tier) -> BoxedStrategy<ClientCase> {
+    let small_blob = || blob_s(200, 1);
+    (
+        (prop::option::weighted(0.5, (any::<u16>(), dense_u32())), prop::option::weighted(0.35, 0u8..=1), small_blob(), small_blob()),
+        (any::<bool>(), 0u8..=2, any::<u16>()),
+        prop::collection::vec((prop_oneof![4 => 0u8..=1, 1 => any::<u8>()], item_s(0)), 0..5),
+        (dense_u32(), dense_u32(), dense_u32(), dense_u32()),
+        prop_oneof![
+            2 => Just(Fault::None),
+            3 => Just(Fault::Truncate),
+            5 => (any::<u16>(), field_s()).prop_map(|(target, field)| Fault::Corrupt { target, field }),
+        ],
+        chunks_s(),
+    )
+        .prop_map(|((serial_mode, downgrade, err_pdu, err_text), (reset_first, version, session), items, eod, fault, chunks)| {
+            let version = downgrade.unwrap_or(version);
+            let reset_first = reset_first && serial_mode.is_some();
+            // lengths on variable-length PDUs stay small (see ALLOC_CAP)
+            let fault = match fault {
+                Fault::Corrupt { target, field } => Fault::Corrupt { target, field: cap_len_field(true, field) },
+                f => f,
+            };
+            ClientCase { serial_mode, downgrade, err_pdu, err_text, reset_first, version, session, items, eod, fault, chunks }
+        })
+        .boxed()
+}
+
+#[derive(Clone, Copy, Debug, PartialEq, Eq)]
+enum Role {
+    VersionError,
+    Reset,
+    Response,
+    Payload,
+    Eod,
+}
+
+#[derive(Default)]
+struct Target {
+    starts: Vec<bool>,
+}
+
+impl PayloadTarget for Target {
+    type Update = Vec<(pl::Action, pl::Payload)>;
+    fn start(&mut self, reset: bool) -> Self::Update {
+        self.starts.push(reset);
+        Vec::new()
+    }
+    fn apply(&mut self, _update: Self::Update, _timing: pl::Timing) -> Result<(), PayloadError> {
+        Ok(())
+    }
+}
+
+thread_local! {
+    // `rtr::Client` wraps its first read in `tokio::time::timeout`, which
+    // needs a runtime with a (paused, virtual) clock.
+    static RT: tokio::runtime::Runtime = tokio::runtime::Builder::new_current_thread()
+        .enable_time()
+        .start_paused(true)
+        .build()
+        .expect("tokio runtime");
+}
+
+struct ClientRun {
+    result: Result<Vec<(pl::Action, pl::Payload)>, io::Error>,
+    polls: u32,
+    eof_polls: u32,
+    aborted: bool,
+    served: usize,
+    starts: Vec<bool>,
+    state: Option<(u16, u32)>,
+}
+
+fn client_update(stream: &[u8], chunks: &[u8], state: Option<(u16, u32)>) -> ClientRun {
+    let (sock, stats) = MemSock::new(stream.to_vec(), chunks.to_vec());
+    let mut client = Client::new(sock, Target::default(), state.map(|(s, n)| State::from_parts(s, Serial(n))));
+    let mut polls = 0u32;
+    let result = RT.with(|rt| {
+        rt.block_on(async {
+            let mut fut = std::pin::pin!(client.update());
+            std::future::poll_fn(|cx| {
+                polls += 1;
+                fut.as_mut().poll(cx)
+            })
+            .await
+        })
+    });
+    ClientRun {
+        result,
+        polls,
+        eof_polls: stats.eof_polls.get(),
+        aborted: stats.aborted.get(),
+        served: stats.served.get(),
+        starts: client.target().starts.clone(),
+        state: client.state().map(|s| (s.session(), s.serial().0)),
+    }
+}
+
+/// Deterministic liveness judgement of one client run.
+fn judge_liveness(run: &ClientRun, what: &str) -> CheckResult {
+    ensure_sig!(
+        !run.aborted && run.eof_polls <= EOF_POLL_LIMIT,
+        "eof-spin:client",
+        "{}: client polled its closed socket {} times{} (limit {}): spins on a closed stream; result {:?}",
+        what, run.eof_polls, if run.aborted { " and had to be aborted" } else { "" }, EOF_POLL_LIMIT,
+        run.result.as_ref().map(|v| v.len()).map_err(|e| e.to_string())
+    );
+    let timed_out = matches!(&run.result, Err(e) if e.kind() == io::ErrorKind::TimedOut);
+    ensure!(
+        run.polls == 1 && !timed_out,
+        "{}: Client::update() needed {} polls{} although its socket is always ready", what, run.polls,
+        if timed_out { " and ended by its (virtual-time) timeout" } else { "" }
+    );
+    Ok(())
+}
+
+fn run_client(c: &ClientCase, obs: &mut Obs) -> CheckResult {
+    if c.downgrade.is_some_and(|d| d >= 2) || c.version > 2 {
+        return Err(Fail::new("case outside the domain: stream version must be 0..=2, downgrade target 0..=1"));
+    }
+    let version = c.downgrade.unwrap_or(c.version);
+    let reset_first = c.reset_first && c.serial_mode.is_some();
+    // the reply stream, written by the library
+    let mut parts: Vec<(Role, Vec<u8>)> = Vec::new();
+    if let Some(d) = c.downgrade {
+        let e = pdu::Error::new(d, pdu::ErrorCode::UNSUPPORTED_PROTOCOL_VERSION.0, c.err_pdu.bytes(), c.err_text.bytes());
+        parts.push((Role::VersionError, Lib::Error(e).write()?));
+    }
+    if reset_first {
+        parts.push((Role::Reset, Lib::CacheReset(pdu::CacheReset::new(version)).write()?));
+    }
+    let state = State::from_parts(c.session, Serial(c.eod.0));
+    parts.push((Role::Response, Lib::CacheResponse(pdu::CacheResponse::new(version, state)).write()?));
+    let mut expected = Vec::new();
+    for (flags, spec) in &c.items {
+        let item = build_item(spec)?;
+        let p = pdu::Payload::new(version, *flags, item.as_ref());
+        let mut b = Vec::new();
+        drive("Payload::write", p.write(&mut b))?.map_err(|e| Fail::new(format!("write: {}", e)))?;
+        parts.push((Role::Payload, b));
+        expected.push((if flags & 1 == 1 { pl::Action::Announce } else { pl::Action::Withdraw }, expected_item(&item, *flags)));
+    }
+    let timing = pl::Timing { refresh: c.eod.1, retry: c.eod.2, expire: c.eod.3 };
+    parts.push((Role::Eod, eod_to_lib(pdu::EndOfData::new(version, state, timing)).write()?));
+    let stream: Vec<u8> = parts.iter().flat_map(|(_, b)| b.iter().copied()).collect();
+    obs.label(if c.serial_mode.is_some() { "serial-query" } else { "reset-query" });
+    obs.label_if(c.downgrade.is_some(), "downgrade");
+    obs.label_if(reset_first, "cache-reset-first");
+
+    let check_intact = |run: &ClientRun, what: &str| -> CheckResult {
+        judge_liveness(run, what)?;
+        match &run.result {
+            Ok(list) => {
+                ensure!(list == &expected, "{}: update holds {:?}, the stream carried {:?}", what, list, expected);
+            }
+            Err(e) => return Err(Fail::new(format!("{}: Client::update() failed on a well-formed reply stream: {}", what, e))),
+        }
+        ensure!(run.starts == vec![c.serial_mode.is_none() || reset_first], "{}: target.start calls {:?}", what, run.starts);
+        ensure!(run.state == Some((c.session, c.eod.0)), "{}: client state {:?}, end of data said {:?}", what, run.state, (c.session, c.eod.0));
+        ensure!(run.served == stream.len(), "{}: client consumed {} of {} octets", what, run.served, stream.len());
+        Ok(())
+    };
+
+    match &c.fault {
+        Fault::None => {
+            obs.label("fault:none");
+            obs.nontrivial_if(c.items.iter().any(|(_, i)| !matches!(i, ItemSpec::Origin { .. })) || c.downgrade.is_some());
+            check_intact(&client_update(&stream, &c.chunks, c.serial_mode), "intact stream")?;
+        }
+        Fault::Truncate => {
+            obs.label("fault:truncate");
+            obs.nontrivial();
+            for cut in 0..stream.len() {
+                let run = client_update(&stream[..cut], &c.chunks, c.serial_mode);
+                let what = format!("reply stream cut after {} of {} octets", cut, stream.len());
+                judge_liveness(&run, &what)?;
+                ensure!(run.result.is_err(), "{}: Client::update() returned Ok", what);
+            }
+            obs.evals(stream.len().saturating_sub(1) as u64);
+        }
+        Fault::Corrupt { target, field } => {
+            obs.label("fault:corrupt");
+            let ti = pick_idx(*target, parts.len());
+            let role = parts[ti].0;
+            let off: usize = parts[..ti].iter().map(|(_, b)| b.len()).sum();
+            let mut s = stream.clone();
+            let (ver, t, len) = header_of(&s[off..]).ok_or_else(|| Fail::new("short PDU"))?;
+            let changed = apply_field(&mut s[off..], field);
+            let (nver, nt, nlen) = header_of(&s[off..]).unwrap();
+            if matches!(nt, T_KEY | T_ASPA) && nlen > ALLOC_CAP {
+                obs.label("not-run-alloc");
+                return Ok(());
+            }
+            let run = client_update(&s, &c.chunks, c.serial_mode);
+            let what = format!("{:?} on PDU {} ({:?}, header {:?} -> {:?})", field, ti, role, (ver, t, len), (nver, nt, nlen));
+            if !changed {
+                obs.label("unchanged");
+                return check_intact(&run, &what);
+            }
+            obs.nontrivial();
+            judge_liveness(&run, &what)?;
+            let first_reply = matches!(role, Role::VersionError | Role::Reset | Role::Response);
+            let must_err = match field {
+                // a first reply of another type is never what the client asked for;
+                // later a type passes only if the payload reader's length rule takes it
+                Field::Type(_) => first_reply || len_rule(nt, nver, nlen, EodRule::ByVersion) != Some(true)
+                    || !matches!(nt, T_V4 | T_V6 | T_KEY | T_ASPA | T_EOD),
+                // the version of a cache reset is not looked at
+                Field::Version(_) => role != Role::Reset,
+                _ => matches!(t, T_RESPONSE | T_RESET | T_V4 | T_V6 | T_EOD),
+            };
+            obs.label(if must_err { "must-err" } else { "outcome-open" });
+            if must_err {
+                ensure!(
+                    run.result.is_err(),
+                    "{}: Client::update() returned Ok({} items) although the header is wrong", what, run.result.as_ref().map(|v| v.len()).unwrap_or(0)
+                );
+            }
+        }
+    }
+    Ok(())
+}
+
+//------------ property ---------------------------------------------------------
+
+const KIND_FLOORS: &[(&str, f64)] = &[
+    ("k:serial-notify", 0.08),
+    ("k:serial-query", 0.08),
+    ("k:reset-query", 0.08),
+    ("k:cache-response", 0.08),
+    ("k:ipv4", 0.08),
+    ("k:ipv6", 0.08),
+    ("k:end-of-data", 0.08),
+    ("k:cache-reset", 0.08),
+    ("k:router-key", 0.08),
+    ("k:error", 0.08),
+    ("k:aspa", 0.08),
+];
 
 pub fn property() -> Property {
-    Property { id: "C07", rule: "", assumptions: vec![], subs: vec![] }
+    Property {
+        id: "C07",
+        rule: RULE,
+        assumptions: vec![
+            "wire layout of the common header per RFC 8210 section 5 / draft-ietf-sidrops-8210bis: version at octet 0, type at octet 1, length big-endian at octets 4-7 (used to rewrite header fields and to read the length field)",
+            "harness readers/sockets are always ready (never Pending): a future must complete in one poll; 'waits or spins forever' is judged by poll counts and polls of the exhausted reader (<= 2), never by wall-clock time",
+            "an ASPA withdrawal names the customer only: to_payload of a withdrawn ASPA is expected with an empty provider list",
+            "announced lengths above 1 MiB are not given to router-key / ASPA body readers, which allocate the announced length before reading (memory use is not part of C07); 2^32-1 is used on fixed-size PDU types and error PDUs only",
+            "a corrupted length of a variable-length PDU that still satisfies the type's length rule cannot be detected by the reader of a single PDU: expected to succeed after exactly the announced number of octets",
+            "libFuzzer target rtr_stream is a separate deliverable and not part of this module",
+        ],
+        subs: vec![
+            PropSub { name: "roundtrip", strategy: seq_strategy, cases: |t| t.pick(300_000, 6_000_000), run: run_roundtrip, floors: KIND_FLOORS }.boxed(),
+            PropSub {
+                name: "payload",
+                strategy: pay_strategy,
+                cases: |t| t.pick(300_000, 4_000_000),
+                run: run_payload,
+                floors: &[("k:ipv4", 0.1), ("k:ipv6", 0.1), ("k:router-key", 0.15), ("k:aspa", 0.15), ("announce", 0.2), ("withdraw", 0.2)],
+            }
+            .boxed(),
+            PropSub {
+                name: "truncate",
+                strategy: seq_strategy_small,
+                cases: |t| t.pick(12_000, 200_000),
+                run: run_truncate,
+                floors: &[("body-truncation", 0.45), ("k:router-key", 0.08), ("k:error", 0.08), ("k:aspa", 0.08), ("k:end-of-data", 0.08)],
+            }
+            .boxed(),
+            PropSub {
+                name: "corrupt",
+                strategy: corrupt_strategy,
+                cases: |t| t.pick(400_000, 8_000_000),
+                run: run_corrupt,
+                floors: &[("f:type", 0.15), ("f:version", 0.1), ("f:length", 0.25), ("exp:err", 0.4), ("exp:ok", 0.05)],
+            }
+            .boxed(),
+            EnumSub { name: "header-enum", count: count_enum, make: make_enum, run: run_corrupt, exhaustive: true }.boxed(),
+            PropSub {
+                name: "client",
+                strategy: client_strategy,
+                cases: |t| t.pick(60_000, 1_500_000),
+                run: run_client,
+                floors: &[("fault:none", 0.1), ("fault:truncate", 0.15), ("fault:corrupt", 0.25), ("must-err", 0.15), ("downgrade", 0.15), ("cache-reset-first", 0.1)],
+            }
+            .boxed(),
+        ],
+    }
 }
